@@ -488,6 +488,78 @@ impl G {
         }
     }
 
+    // ---------------------------------------------------------------- suspense boundaries
+    //
+    // S views: `sus` / `tra` over `aw <rid>` leaves (resources = `ares` lines over signals, completed by `resolve`),
+    // nested in each other, under Show / Either / rows and around them; observed at idle points (every op runs the
+    // executor to idle).  A `<Transition>` sits at a fixed place (no branch or row above it) over fixed structure.
+
+    fn sleaf(&mut self, nres: usize, in_b: bool, in_row: bool) -> ViewD {
+        if in_b && self.r.chance(1, 2) {
+            return ViewD::Aw(self.r.below(nres));
+        }
+        match self.r.below(3) {
+            0 => ViewD::Text(self.word()),
+            _ => {
+                let e = self.dyn_expr();
+                ViewD::DynText(if in_row && self.r.chance(1, 2) { Expr::Add(Box::new(e), Box::new(Expr::Key)) } else { e })
+            }
+        }
+    }
+
+    /// `fixed`: no branch or row above (a `<Transition>` may sit here); `only_fixed`: below a `<Transition>`
+    fn sview(&mut self, depth: usize, nres: usize, in_b: bool, fixed: bool, only_fixed: bool, in_row: bool) -> ViewD {
+        if depth == 0 {
+            return self.sleaf(nres, in_b, in_row);
+        }
+        match self.r.below(16) {
+            0 | 1 => self.sleaf(nres, in_b, in_row),
+            2 => ViewD::Elem(*self.r.pick(TAGS), self.attrs(), Box::new(self.sview(depth - 1, nres, in_b, fixed, only_fixed, in_row))),
+            3 | 4 => ViewD::Seq(
+                Box::new(self.sview(depth - 1, nres, in_b, fixed, only_fixed, in_row)),
+                Box::new(self.sview(depth - 1, nres, in_b, fixed, only_fixed, in_row)),
+            ),
+            5 | 6 | 7 | 8 => ViewD::Sus(Box::new(self.sview(depth - 1, nres, true, fixed, only_fixed, in_row))),
+            9 | 10 if fixed => ViewD::Tra(Box::new(self.sview(depth - 1, nres, true, true, true, false))),
+            11 | 12 if !only_fixed => {
+                let c = self.cond_expr();
+                let c = if in_row && self.r.chance(1, 2) { Expr::Add(Box::new(c), Box::new(Expr::Key)) } else { c };
+                let (a, b) = (self.sview(depth - 1, nres, in_b, false, false, false), self.sview(depth - 1, nres, in_b, false, false, false));
+                if self.r.chance(1, 2) { ViewD::Show(c, Box::new(a), Box::new(b)) } else { ViewD::Either(c, Box::new(a), Box::new(b)) }
+            }
+            13 | 14 if !only_fixed && !in_row => {
+                let lists = self.xlists();
+                let sel = self.dyn_expr();
+                let row = self.sview(depth - 1, nres, in_b, false, false, true);
+                ViewD::Elem("ul", vec![], Box::new(ViewD::ForR(sel, lists, Box::new(row))))
+            }
+            _ => ViewD::Sus(Box::new(ViewD::Seq(
+                Box::new(ViewD::Aw(self.r.below(nres))),
+                Box::new(self.sview(depth - 1, nres, true, fixed, only_fixed, in_row)),
+            ))),
+        }
+    }
+
+    /// nested boundaries near the top: the inner one flips while the outer one shows its fallback
+    fn stop(&mut self, depth: usize, nres: usize) -> ViewD {
+        let outer_leaf = ViewD::Aw(self.r.below(nres));
+        let inner = ViewD::Sus(Box::new(ViewD::Seq(
+            Box::new(ViewD::Aw(self.r.below(nres))),
+            Box::new(self.sview(depth.saturating_sub(1), nres, true, true, false, false)),
+        )));
+        let kids = if self.r.chance(1, 2) {
+            ViewD::Seq(Box::new(ViewD::Elem("b", vec![], Box::new(outer_leaf))), Box::new(inner))
+        } else {
+            ViewD::Seq(Box::new(inner), Box::new(outer_leaf))
+        };
+        let top = if self.r.chance(2, 3) { ViewD::Sus(Box::new(kids)) } else { ViewD::Tra(Box::new(fix_only(kids))) };
+        match self.r.below(4) {
+            0 | 1 => top,
+            2 => ViewD::Elem(*self.r.pick(TAGS), self.attrs(), Box::new(top)),
+            _ => ViewD::Seq(Box::new(self.sview(depth.saturating_sub(1), nres, false, true, false, false)), Box::new(top)),
+        }
+    }
+
     fn view(&mut self, depth: usize) -> ViewD {
         if depth == 0 {
             return match self.r.below(4) {
@@ -515,9 +587,9 @@ impl G {
 
 fn has_susp(v: &ViewD) -> bool {
     match v {
-        ViewD::Susp(..) => true,
+        ViewD::Susp(..) | ViewD::Sus(..) | ViewD::Tra(..) => true,
         ViewD::Text(_) | ViewD::Unit | ViewD::DynText(_) | ViewD::For(..) | ViewD::Res(..) | ViewD::Aw(_) => false,
-        ViewD::Elem(_, _, k) | ViewD::Errb(_, k) | ViewD::ForR(_, _, k) | ViewD::ForE(_, _, k) | ViewD::Scope(_, _, k) | ViewD::Eb(k) | ViewD::Sus(k) | ViewD::Tra(k) => has_susp(k),
+        ViewD::Elem(_, _, k) | ViewD::Errb(_, k) | ViewD::ForR(_, _, k) | ViewD::ForE(_, _, k) | ViewD::Scope(_, _, k) | ViewD::Eb(k) => has_susp(k),
         ViewD::Seq(a, b) | ViewD::Either(_, a, b) | ViewD::Show(_, a, b) => has_susp(a) || has_susp(b),
     }
 }
@@ -529,6 +601,74 @@ fn root_has_for(v: &ViewD) -> bool {
         ViewD::Elem(_, _, k) | ViewD::Scope(_, _, k) => root_has_for(k),
         ViewD::Seq(a, b) => root_has_for(a) || root_has_for(b),
         _ => false,
+    }
+}
+
+/// what may sit below a `<Transition>`: branches and rows are replaced by their first alternative / dropped
+fn fix_only(v: ViewD) -> ViewD {
+    match v {
+        ViewD::Either(_, a, _) | ViewD::Show(_, a, _) => fix_only(*a),
+        ViewD::For(..) | ViewD::ForR(..) | ViewD::ForE(..) => ViewD::Unit,
+        ViewD::Elem(t, a, k) => ViewD::Elem(t, a, Box::new(fix_only(*k))),
+        ViewD::Seq(a, b) => ViewD::Seq(Box::new(fix_only(*a)), Box::new(fix_only(*b))),
+        ViewD::Sus(k) => ViewD::Sus(Box::new(fix_only(*k))),
+        ViewD::Tra(k) => ViewD::Tra(Box::new(fix_only(*k))),
+        other => other,
+    }
+}
+
+fn random_scase(g: &mut G, name: &str, out: &mut String) {
+    g.defs.clear();
+    let nsig = g.r.range(1, 3);
+    for _ in 0..nsig {
+        g.defs.push(Def::Sig(g.r.below(4) as i64 - 1));
+    }
+    // resources over the signals (before a memo is defined: they read signals only)
+    let nres = g.r.range(1, 3);
+    let bodies: Vec<Expr> = (0..nres).map(|_| g.sig_expr()).collect();
+    if g.r.chance(1, 3) {
+        let b = g.expr(2);
+        let b = if reads_of(&g.defs, &b).is_empty() { Expr::Rd(0) } else { b };
+        g.defs.push(Def::Memo(b));
+    }
+    let depth = g.r.range(1, 3);
+    let view = if g.r.chance(2, 3) { g.stop(depth, nres) } else { g.sview(depth, nres, false, true, false, false) };
+    // make sure there is a boundary with a leaf
+    let view = if has_susp(&view) { view } else { ViewD::Seq(Box::new(view), Box::new(ViewD::Sus(Box::new(ViewD::Aw(0))))) };
+    writeln!(out, "case {name}").unwrap();
+    for d in &g.defs {
+        match d {
+            Def::Sig(v) => writeln!(out, "sig {v}").unwrap(),
+            Def::Memo(b) => writeln!(out, "memo {}", show_expr(b)).unwrap(),
+        }
+    }
+    for b in &bodies {
+        writeln!(out, "ares {}", show_expr(b)).unwrap();
+    }
+    for rid in 0..nres {
+        if g.r.chance(1, 3) {
+            writeln!(out, "resolve {rid}").unwrap();
+        }
+    }
+    writeln!(out, "mount {}", show_view(&view)).unwrap();
+    let sigs = sig_ids(&g.defs);
+    let n = g.r.range(4, 16);
+    let dispose_at = if g.r.chance(1, 8) { Some(g.r.below(n)) } else { None };
+    for w in 0..n {
+        if dispose_at == Some(w) {
+            writeln!(out, "dispose").unwrap();
+        }
+        if g.r.chance(1, 2) {
+            writeln!(out, "resolve {}", g.r.below(nres)).unwrap();
+        } else {
+            writeln!(out, "set {} {}", *g.r.pick(&sigs), g.r.below(5) as i64 - 1).unwrap();
+        }
+    }
+    // let everything load
+    for _ in 0..2 {
+        for rid in 0..nres {
+            writeln!(out, "resolve {rid}").unwrap();
+        }
     }
 }
 
@@ -722,7 +862,11 @@ pub fn generate(seed: u64, n: usize, _tier: &str) -> String {
     let nx = exhaustive_cases(&mut out);
     let mut g = G { r: Rng::new(seed), defs: vec![], next_sid: 0, sig_sids: vec![] };
     for i in 0..n.saturating_sub(nx).max(1) {
-        random_case(&mut g, &format!("g{i}"), &mut out);
+        if g.r.chance(1, 6) {
+            random_scase(&mut g, &format!("g{i}"), &mut out);
+        } else {
+            random_case(&mut g, &format!("g{i}"), &mut out);
+        }
     }
     out
 }
